@@ -212,6 +212,26 @@ def templates(tier):
         yield "lambda", f"g = lambda q: q * 2\nreturn g({e1})"
         yield "annotated-assign", f"t: float = {e1}\nreturn t + ({e2})"
         yield "with-default-compare", f"if {e1} > {e2}:\n    return 1.0\nreturn 0.0"
+        # the same statement kinds binding a name that is ALREADY bound (an argument, an earlier local): dropping
+        # the statement then leaves a translatable body with another value
+        yield "annotated-rebind-arg", f"x: float = {e1}\nreturn x + ({e2})"
+        yield "annotated-rebind-local", f"t = {e1}\nt: float = t * 2 + ({e2})\nreturn t"
+        yield "annotated-bare", f"t: float\nt = {e1}\nreturn t + ({e2})"
+        yield "annotated-in-branch", f"t = {e1}\nif x > y:\n    t: float = t - ({e2})\nreturn t"
+        yield "walrus-rebind", f"return (x := {e1}) + x * ({e2})"
+        yield "augassign-arg", f"x += {e1}\nreturn x * ({e2})"
+        yield "for-rebind-arg", f"for x in ({e1}, {e2}):\n    pass\nreturn x + y"
+        yield "nested-def", f"def g(q):\n    return q * 2\nreturn g({e1}) + ({e2})"
+        yield "nested-def-shadows-helper", f"def h(a, b):\n    return a + b\nreturn h({e1}, {e2})"
+        yield "del-then-use", f"t = {e1}\nu = t + ({e2})\ndel t\nreturn u"
+        yield "global-decl", f"global K\nreturn ({e1}) * K + ({e2})"
+        yield "starred-assign", f"a, *b = {e1}, {e2}, x\nreturn a + b[0]"
+        yield "chained-assign", f"a = b = {e1}\nreturn a + b * ({e2})"
+        yield "chained-assign-rebind", f"x = y = {e1}\nreturn x - y + ({e2})"
+        yield "chained-assign-three", f"t = x = u = {e1}\nreturn t + x * u - ({e2})"
+        yield "unpack-non-display-rebind", f"x, y = (y, x) if x > y else ({e1}, {e2})\nreturn x - 2 * y"
+        yield "unpack-call-rebind", f"x, y = divmod({e1}, 2.0)\nreturn x + y + ({e2})"
+        yield "single-from-tuple", f"t = {e1}, {e2}\nreturn x + y"
     # statements without influence on the value (docstring, pass, assert, bare expression) in front of and
     # between branching code whose branches update a name non-idempotently
     for skip, c, e1 in it.product(('"""Doc."""', "pass", "assert x > -10", "x + y", '"""Doc."""\npass'), Cm, Em[:3]):
